@@ -321,6 +321,10 @@ def make_units(prop, tier, only=None):
                 else:
                     u.update(max_paths=50000, timeout=600, query_timeout_ms=60000)
                 units.append(u)
+        for L in common.short_lengths(info, tier, modname):
+            u = {'prop': prop, 'module': modname, 'options': {}, 'L': L, 'K': 1, 'prio': 2, 'is_valid_takes_options': True}
+            u.update(dict(max_paths=400, timeout=8, query_timeout_ms=4000) if tier == 'quick' else dict(max_paths=5000, timeout=60, query_timeout_ms=30000))
+            units.append(u)
         if prop == 'C01' and Ls:
             for shape in ('list', 'tuple') if tier != 'quick' else ('list',):
                 u = {'prop': prop, 'module': modname, 'options': {}, 'L': min(Ls[0], 6), 'K': 1, 'shape': shape, 'is_valid_takes_options': True}
